@@ -56,6 +56,14 @@ def run(ctx):
     from .pitfalls import rule_groupby_sorted, rule_single_use_iterators
     ctx.do(rule_groupby_sorted, "C09.iterator-pitfalls", ("stix2.equivalence.pattern",))
     ctx.do(rule_single_use_iterators, "C09.iterator-pitfalls", ("stix2.equivalence.pattern",))
+    from .pitfalls import rule_index_deletion_descending
+
+    def _deletions(ctx_):
+        if rule_index_deletion_descending(ctx_, "C09.iterator-pitfalls", ("stix2.equivalence",)) < 2:
+            raise AnalysisError("fewer than 2 delete-by-position loops in the absorption transformers: anchors lost")
+    ctx.do(_deletions)
+    from .pitfalls import rule_loop_flags_monotone
+    ctx.do(rule_loop_flags_monotone, "C09.changed-accumulates", ("stix2.equivalence",))
     from .hidden_state import rule_no_hidden_state
     ctx.do(rule_no_hidden_state, "C09.history-independence")
 
